@@ -185,3 +185,43 @@ Example C06_close_would_lose_buffer :
   s_buf (exec [OSeek 0; ORead None; OClose] (mkStream [1%N; 2%N] 0)) <> [1%N; 2%N].
 Proof. exact close_loses_buffer. Qed.
 Print Assumptions C06_close_would_lose_buffer.
+
+(* ---- order of archive results -------------------------------------------------------------------------- *)
+(* read_archive (ZIP / TAR drivers): the results are the concatenation, IN MEMBER ORDER, of what each processed
+   member yields: compositional over the member list ... *)
+Theorem C06_archive_results_compositional :
+  forall (R : Type) (a b : list (amember R)), archive_results (a ++ b) = archive_results a ++ archive_results b.
+Proof. intros R a b. exact (archive_results_app a b). Qed.
+Print Assumptions C06_archive_results_compositional.
+
+(* ... so every result of an earlier member comes before every result of a later member, whatever lies around them *)
+Theorem C06_archive_results_follow_member_order :
+  forall (R : Type) (a : list (amember R)) (m1 : amember R) (b : list (amember R)) (m2 : amember R) (c : list (amember R)) (r1 r2 : R),
+    In r1 (archive_results [m1]) -> In r2 (archive_results [m2]) ->
+    exists pre mid post, archive_results (a ++ m1 :: b ++ m2 :: c) = pre ++ r1 :: mid ++ r2 :: post.
+Proof. intros R a m1 b m2 c r1 r2. exact (archive_order a m1 b m2 c r1 r2). Qed.
+Print Assumptions C06_archive_results_follow_member_order.
+
+(* a member contributes nothing iff it is a directory, skipped, too large or unreadable; otherwise exactly its results *)
+Theorem C06_archive_member_contribution :
+  forall (R : Type) (m : amember R) (ms : list (amember R)),
+    archive_results (m :: ms) =
+    (if am_dir m || am_skip m || am_too_large m || am_unreadable m then [] else am_results m) ++ archive_results ms.
+Proof. intros R m ms. exact (archive_results_cons m ms). Qed.
+Print Assumptions C06_archive_member_contribution.
+
+(* a worker pool whose results are consumed in submission order gives the sequential result under EVERY schedule *)
+Theorem C06_pool_submission_order_schedule_independent :
+  forall (R : Type) (c1 c2 : list (amember R) -> list (amember R)) (ms : list (amember R)),
+    pool_in_submission_order c1 ms = pool_in_submission_order c2 ms
+    /\ pool_in_submission_order c1 ms = archive_results ms.
+Proof. intros R c1 c2 ms. exact (pool_in_order_independent c1 c2 ms). Qed.
+Print Assumptions C06_pool_submission_order_schedule_independent.
+
+(* consuming results as they complete does depend on the schedule (sink SResult of the inventory) *)
+Theorem C06_pool_as_completed_refuted :
+  exists (c1 c2 : list (amember N) -> list (amember N)) (ms : list (amember N)),
+    (forall l, Permutation (c1 l) l) /\ (forall l, Permutation (c2 l) l) /\
+    pool_as_completed c1 ms <> pool_as_completed c2 ms.
+Proof. exact pool_as_completed_depends. Qed.
+Print Assumptions C06_pool_as_completed_refuted.
